@@ -399,9 +399,18 @@ pub fn run_level_b(
     let j = model::judge(world);
     let n = COUNTER.fetch_add(1, Ordering::SeqCst);
     let base = scratch_root().join(format!("b{n}"));
-    let root = base.join("repo");
+    // now and then the repository is a Mercurial checkout nested in a Git one: its root is the
+    // NEAREST ancestor with a `.git` or `.hg` directory (never together with a git-built diff,
+    // which needs %4 == 0, nor with ignore rules, whose reach the outer repository could change)
+    let nested_hg = plan.create_seed % 7 == 3 && plan.create_seed % 4 != 0 && world.gitignore.is_empty();
+    let root = if nested_hg { base.join("outer").join("nested") } else { base.join("repo") };
+    let marker = if nested_hg { ".hg" } else { ".git" };
     let _ = std::fs::remove_dir_all(&base);
     std::fs::create_dir_all(&root).expect("create level-B root");
+    if nested_hg {
+        std::fs::create_dir_all(base.join("outer").join(".git")).expect("mkdir outer .git");
+        write_file(&base.join("outer"), "outer.py", "h0=0\n# <block keep-sorted=\"asc\">\nzz\naa\n# </block>\n");
+    }
     let mut extra: Vec<Mismatch> = Vec::new();
     let mut harness_notes: Vec<String> = Vec::new();
     let mut foreign_requests = 0usize;
@@ -494,11 +503,11 @@ pub fn run_level_b(
         }
         let _ = std::fs::remove_file(root.join(".keep"));
     } else {
-        std::fs::create_dir_all(root.join(".git")).expect("mkdir .git");
+        std::fs::create_dir_all(root.join(marker)).expect("mkdir repository marker");
     }
     if !use_git || git_diff.is_none() {
-        if !root.join(".git").is_dir() {
-            std::fs::create_dir_all(root.join(".git")).expect("mkdir .git");
+        if !root.join(".git").is_dir() && !root.join(marker).is_dir() {
+            std::fs::create_dir_all(root.join(marker)).expect("mkdir repository marker");
         }
         for &i in &order {
             let f = &world.files[i];
@@ -786,6 +795,9 @@ pub fn run_level_b(
         }
         if decoy_git_file {
             *m.entry("runs_with_git_file_in_start_dir".to_string()).or_default() += 1;
+        }
+        if nested_hg {
+            *m.entry("runs_in_a_mercurial_checkout_nested_in_a_git_one".to_string()).or_default() += 1;
         }
         if stdin_chunks > 1 {
             *m.entry("runs_with_diff_trickling_in_on_stdin".to_string()).or_default() += 1;
